@@ -396,7 +396,7 @@ Qed.
 Definition safe (o : op) (m : rmap) : Prop :=
   match o with
   | OPrefix _ | OSuffix _ => uniform m
-  | ONamespace _ => no_empties m
+  | ONamespace _ _ => no_empties m
   | ORawRename _ _ => False            (* unchecked identity rewrite: outside the property's domain *)
   (* domain of the model, not needed by the proof: CopyMergeMetaDataFieldsFrom and ApplySmPatch write the old name
      back with SetName, which turns a missing metadata.name into `name: ""`; the model does not distinguish the
@@ -450,7 +450,7 @@ Definition ex_ns : mres := mkRes (mkId (mkGvk "" "v1" "Namespace" true) "prod" "
 Definition ex_gen : mres :=
   mkRes (mkId cm_gvk "conf" "") [(K_utils_BuildAnnotationsGenBehavior, "merge")] false "g".
 Definition ex_ops : list op :=
-  [ OAppendAll [ex_dep; ex_cm; ex_ns]; OAbsorbAll [ex_gen]; OPrefix "p-"; ONamespace "prod"; OSortLegacy ].
+  [ OAppendAll [ex_dep; ex_cm; ex_ns]; OAbsorbAll [ex_gen]; OPrefix "p-"; ONamespace "prod" false; OSortLegacy ].
 
 Example ex_trace_runs : exists m', run ex_ops [] = Ok m' /\ List.length m' = 3.
 Proof. eexists. split; vm_compute; reflexivity. Qed.
@@ -763,7 +763,7 @@ Qed.
 (* non-vacuity: an overlay over two bases, each adding its own prefix, merges and stays unique; the same
    two bases without distinct prefixes collide in AppendAll *)
 Definition ex_base (p : string) : layer := Layer [] [OAppendAll [ex_dep; ex_cm]; OPrefix p].
-Definition ex_overlay : layer := Layer [ex_base "a-"; ex_base "b-"] [ONamespace "prod"; OSortLegacy].
+Definition ex_overlay : layer := Layer [ex_base "a-"; ex_base "b-"] [ONamespace "prod" false; OSortLegacy].
 
 Example ex_overlay_runs : exists m, accumulate ex_overlay = Ok m /\ List.length m = 4.
 Proof. eexists. split; vm_compute; reflexivity. Qed.
